@@ -1,4 +1,123 @@
-From Coq Require Import List ZArith.
-From V Require Import C09.Model C09.Proofs.
-Theorem C09_placeholder : True. Proof. exact placeholder. Qed.
-Print Assumptions C09_placeholder.
+(* C09 — Shutter position estimate matches motor run time regardless of timer jitter.
+   Property theorems only: each is closed by `exact` of a lemma proved in C09/Proofs.v.
+   Every theorem is stated for an arbitrary record `o` of the five floating-point sub-expressions of
+   supla_esp_gpio_rs_move_position that satisfies the relational facts `fp_ok` (FP0..FP3: product with 0 is 0;
+   two roundings stay within one of the exact floor; the two single-rounding quotients truncate to the exact
+   floor).  The harness runs the bit-exact IEEE binary64 instance `fops` against the real C code. *)
+From Coq Require Import List ZArith Lia.
+Import ListNotations.
+From V Require Import Base.U32 Gen.RsConsts C09.Model C09.Proofs.
+Local Open Scope Z_scope.
+
+(* Range.  For every configuration in which a roller shutter has no tilting time, from every state whose position is
+   unknown (0) or inside 100..10100 and whose tilt is -1, 0 or inside 100..10100, every sequence of output
+   changes, in-range pokes and timer callbacks at arbitrary intervals keeps position and tilt in those sets, and the
+   values put on the wire are -1 or 0..100. *)
+Theorem C09_range : forall o, fp_ok o -> forall c boot s evs,
+  wf_cfg c -> Forall ev_ok evs -> range_ok s ->
+  let s' := run o c boot s evs in
+  range_ok s' /\ rep_ok (current_position (pos s')) /\ rep_ok (current_tilt c (tilt s')).
+Proof. exact C09_range_thm. Qed.
+Print Assumptions C09_range.
+
+(* the reported values are -1 or 0..100 whatever is stored *)
+Theorem C09_reported_range : forall c p t, rep_ok (current_position p) /\ rep_ok (current_tilt c t).
+Proof. intros; split; [apply current_position_range|apply current_tilt_range]. Qed.
+Print Assumptions C09_reported_range.
+
+(* Direction.  A callback with the up (down) output energised and a known position never moves position or tilt away
+   from the end stop of that direction (remaining distance never grows, never becomes negative). *)
+Theorem C09_direction : forall o, fp_ok o -> forall c boot s dt up,
+  wf_cfg c -> range_ok s -> dir s = dir_of up -> known (pos s) = true ->
+  let s' := timer_cb o c boot s dt in
+  known (pos s') = true /\ 0 <= remaining up (pos s') <= remaining up (pos s) /\
+  (tilt_supported c = true -> known (tilt s) = true -> fixed_tilt_consistent c s ->
+   known (tilt s') = true /\ 0 <= remaining up (tilt s') <= remaining up (tilt s)).
+Proof. exact C09_direction_thm. Qed.
+Print Assumptions C09_direction.
+
+(* Accounting, roller shutter.  n callbacks at arbitrary non-negative intervals (sum t, total below 2^32 us) with the
+   motor energised in one direction from a known position: the distance moved, times the full travel time T, equals
+   10000 * (time run - carry) up to 2 us per callback, and the carry is below one position unit unless the end stop is
+   reached.  No hypothesis on how t is split. *)
+Theorem C09_accounting_rs : forall o, fp_ok o -> forall c boot up s ds,
+  rs_cfg c -> 20000 <= full_of c up * 1000 < 4294967296 ->
+  synced boot s -> known (pos s) = true -> 0 <= carry_of up s ->
+  Forall (fun d => 0 <= d) ds -> carry_of up s + sumz ds < 4294967296 ->
+  motor_on o c boot up s ds ->
+  let T := full_of c up * 1000 in
+  let s' := run_cbs o c boot s ds in
+  let e := carry_of up s + sumz ds in
+  let n := Z.of_nat (length ds) in
+  let moved := remaining up (pos s) - remaining up (pos s') in
+  known (pos s') = true /\ 0 <= remaining up (pos s') /\ 0 <= moved /\
+  0 <= carry_of up s' <= e /\
+  10000 * (e - carry_of up s') <= moved * T <= 10000 * (e - carry_of up s') + 20000 * n /\
+  (0 < n -> 0 < remaining up (pos s') -> 10000 * carry_of up s' < T + 10000).
+Proof. exact C09_accounting_rs_thm. Qed.
+Print Assumptions C09_accounting_rs.
+
+(* the same in position units (0.01 %): ideal = floor(10000 t / T) clamped at the end stop *)
+Theorem C09_accounting_rs_units : forall T R0 r' e cy n,
+  20000 <= T -> 0 <= r' <= R0 -> 0 <= cy <= e -> 0 <= n ->
+  10000 * (e - cy) <= (R0 - r') * T <= 10000 * (e - cy) + 20000 * n ->
+  (0 < r' -> 10000 * cy < T + 10000) ->
+  let moved := R0 - r' in
+  let ideal := Z.min R0 (10000 * e / T) in
+  ideal - 1 <= moved <= ideal + 1 + (20000 * n) / T + 1.
+Proof. exact accounting_units. Qed.
+Print Assumptions C09_accounting_rs_units.
+
+(* End to end, roller shutter: callback intervals of at least 1 ms, a run of at most four full travel times, the true
+   motor run time within 30 ms of the time seen by the callbacks (switching instants anywhere between callbacks, nominal
+   10 ms timer with up to 20 ms lateness): the stored position is the ideal position for the true run time within
+   one percentage point (100 units) plus the travel of 30 ms. *)
+Theorem C09_end_to_end_rs : forall o, fp_ok o -> forall c boot up s ds t_true,
+  rs_cfg c -> 20000 <= full_of c up * 1000 < 4294967296 ->
+  synced boot s -> known (pos s) = true -> carry_of up s = 0 ->
+  Forall (fun d => 1000 <= d) ds -> sumz ds < 4294967296 -> sumz ds <= 4 * (full_of c up * 1000) ->
+  motor_on o c boot up s ds ->
+  0 <= t_true -> sumz ds - 30000 <= t_true <= sumz ds + 30000 ->
+  let T := full_of c up * 1000 in
+  let moved := remaining up (pos s) - remaining up (pos (run_cbs o c boot s ds)) in
+  let ideal := Z.min (remaining up (pos s)) (10000 * t_true / T) in
+  ideal - (100 + (10000 * 30000 / T + 1)) <= moved <= ideal + (100 + (10000 * 30000 / T + 1)).
+Proof. exact C09_end_to_end_rs_thm. Qed.
+Print Assumptions C09_end_to_end_rs.
+
+(* Facade blinds.  The accounting clause is FALSE of the faithful model (and of the real code, see
+   corpus/C09/fb_mode2_tilt_fast.txt) for "change position while tilting": witness computed on the bit-exact
+   float instance.  Full statement that is refuted:
+     forall runs of a calibrated blind in mode 2, |stored tilt - clamp(start -/+ 10000 t / T_tilt)| <= 100 + travel of 30 ms.
+   For the modes that tilt in place (1 and 3) the clause holds only up to the travel of one callback interval at the
+   hand-over between tilting and moving, and only when one tilt unit is not longer than a callback interval
+   (docs/reports/C09.md); those two deviations are reported by the monitor and proposed as known findings, the
+   per-callback facts that do hold for them are C09_range and C09_direction above. *)
+Theorem C09_accounting_fb_change_position_refuted :
+  tilt w_final - 100 = 9860 /\
+  let ideal_tilt := 10000 * (50 * 10000) / (tilt_ms w_cfg * 1000) in
+  let tolerance := 100 + 10000 * 30000 / (tilt_ms w_cfg * 1000) + 1 in
+  ideal_tilt = 2890 /\ tolerance = 274 /\ tilt w_final - 100 > ideal_tilt + tolerance.
+Proof. exact C09_fb_change_position_tilt_refuted_lem. Qed.
+Print Assumptions C09_accounting_fb_change_position_refuted.
+
+(* ---------- the hypotheses are satisfiable ---------- *)
+(* exact integer arithmetic is one instance of the floating-point facts *)
+Definition zops : fpops := {|
+  fp_rem := fun r T => r * T / 10000; fp_dot := fun t T => 10000 * t / T; fp_tod := fun d T => d * T / 10000;
+  fp_margin := fun F m => F * m / 100; fp_cal := fun F => F * 11 / 10 |}.
+Example zops_ok : fp_ok zops.
+Proof.
+  constructor; cbn [fp_rem fp_dot fp_tod zops]; intros; try reflexivity; try lia.
+  replace (r * 0) with 0 by lia. reflexivity.
+Qed.
+Example rs_cfg_example : rs_cfg {| full_open := 17300; full_close := 17300; tilt_ms := 0; tilt_type := 0; margin := 110 |}
+  /\ wf_cfg {| full_open := 17300; full_close := 17300; tilt_ms := 0; tilt_type := 0; margin := 110 |}.
+Proof. split; [split; reflexivity|intros _; reflexivity]. Qed.
+(* a concrete run meeting the hypotheses of C09_accounting_rs on the float instance: 120 callbacks of 10 ms, moving down *)
+Example accounting_example :
+  let c := {| full_open := 17300; full_close := 17300; tilt_ms := 0; tilt_type := 0; margin := 110 |} in
+  let s0 := step fops c 1 (timer_cb fops c 1 (init c 3100 0 250000) 10000) (SetDir 1) in
+  synced 1 s0 /\ known (pos s0) = true /\ motor_on fops c 1 false s0 (repeat 10000 120) /\
+  pos (run_cbs fops c 1 s0 (repeat 10000 120)) = 3100 + 10000 * 1200000 / 17300000.
+Proof. vm_compute. repeat split; reflexivity. Qed.
